@@ -57,6 +57,7 @@ type oblStatus struct {
 	Reach     bool
 	Solver    map[string]int
 	Seconds   float64
+	MaxS      float64 // slowest single query of this obligation
 	FailInst  *Obligation
 	FailRes   *SolveResult
 	Goal      string
@@ -247,6 +248,9 @@ func dischargeFunc(sv *Solver, fr *FuncResult, par int) map[string]*oblStatus {
 			}
 			st.Instances++
 			st.Seconds += r.Seconds
+			if r.Seconds > st.MaxS {
+				st.MaxS = r.Seconds
+			}
 			st.Solver[r.Solver]++
 			switch r.Answer {
 			case "unsat":
@@ -483,6 +487,7 @@ func cmdCheck(args []string) int {
 	// thorough: every obligation instance gets its own query (no batching of a return point's obligations), longer
 	// solver timeouts, and the larger bounds of the bounded stand-ins
 	sv.noBatch = tier == "thorough"
+	sv.crossCheck = tier == "thorough"
 	defer os.RemoveAll(outDir)
 
 	var baseline map[string][]string
@@ -520,7 +525,7 @@ func cmdCheck(args []string) int {
 	var samples []interface{}
 	var allNames []string
 	assumptions := map[string]bool{}
-	var undecidedList, trusted, funcsUnderContract, knownHit, unclaimedList []string
+	var undecidedList, trusted, funcsUnderContract, knownHit, unclaimedList, slow []string
 	vacuity := 0
 	exit := 0
 	replayDir := filepath.Join(verifRoot, "replays", pid)
@@ -557,6 +562,9 @@ func cmdCheck(args []string) int {
 			}
 			total++
 			allNames = append(allNames, n)
+			if st.MaxS > 3 {
+				slow = append(slow, fmt.Sprintf("%s: slowest query %.1fs", n, st.MaxS))
+			}
 			switch st.Status() {
 			case "discharged":
 				discharged++
@@ -675,8 +683,14 @@ func cmdCheck(args []string) int {
 		"unclaimed":    unclaimedList, "baseline_missing": missing,
 		"samples":      samples,
 		"bounded_stand_ins": boundedCov,
+		"slow_queries_over_3s": slow,
+		"second_solver_agreement": map[string]interface{}{"enabled": sv.crossCheck, "agree": sv.crossAgree, "second_solver_no_answer": sv.crossNone, "disagreements": sv.crossDisagree},
 		"explanation":  "contract-based deductive verification: weakest-precondition style VCs generated from go/ssa of /repo's working tree, discharged by z3/cvc5; see DESIGN.md",
 		"evaluations": total, "distinct_nontrivial": discharged,
+	}
+	for _, d := range sv.crossDisagree {
+		// two solvers contradict each other on one query: nothing can be concluded from either
+		fmt.Printf("UNDECIDED property=%s solver-disagreement %s\n", pid, d)
 	}
 	writeEvidence(pid, tier, seed, level, cov, sortedKeys(assumptions), time.Since(t0).Seconds(), violations)
 	if os.Getenv("GOVC_WRITE_BASELINE") != "" {
